@@ -10,6 +10,7 @@ import (
 	"fmt"
 	"os"
 	"path/filepath"
+	"sort"
 
 	"verifh/sim"
 	"verifh/verifrt"
@@ -108,6 +109,24 @@ func (e engine) Execute(prop string, plan sim.Plan, seed uint64, res *sim.RunRes
 	}
 	or := newOracles(w)
 	or.afterBoot()
+	changes := w.runOps(or, nil, nil)
+	if !w.dead && len(res.Violations) == 0 {
+		or.atEnd()
+	}
+	if prop == "C13" && !w.dead && len(res.Violations) == 0 {
+		e.c13Twin(w, p, seed, res)
+	}
+	res.Nontrivial = changes >= 2
+	res.SimSeconds = vw.SimulatedSeconds()
+	res.Digest = fmt.Sprintf("%016x", vw.LogDigest())
+	res.Extra["map-iterations"] += int(vw.IterCalls)
+}
+
+// runOps drives the plan's operations. skip marks op numbers that are not
+// delivered (differential twin); record, if non-nil, receives one observation
+// per delivered op.
+func (w *world) runOps(or *oracles, skip map[int]bool, record map[int]string) int {
+	p, vw, res := w.plan, w.vw, w.res
 	// initial synchronization with an empty runtime
 	vw.SetRequest("sync0")
 	rep := &reply{kind: "sync"}
@@ -115,14 +134,20 @@ func (e engine) Execute(prop string, plan sim.Plan, seed uint64, res *sim.RunRes
 	w.applyReply(rep)
 	changes := 0
 	for i := range p.Ops {
-		op := &p.Ops[i]
+		op := p.Ops[i] // copy: execution annotates it
 		w.step = i
+		if skip[op.N] {
+			continue
+		}
 		vw.SetRequest(fmt.Sprintf("op%d", op.N))
 		if os.Getenv("VERIF_TRACE") != "" {
 			b, _ := json.Marshal(op)
 			fmt.Fprintf(os.Stderr, "TRACE op %s\n", b)
 		}
-		rep := w.doOp(op)
+		if or != nil {
+			or.beforeRequest(&op)
+		}
+		rep := w.doOp(&op)
 		if rep.skipped {
 			continue
 		}
@@ -135,6 +160,14 @@ func (e engine) Execute(prop string, plan sim.Plan, seed uint64, res *sim.RunRes
 		if w.dead {
 			break
 		}
+		if record != nil {
+			s, _ := newOracles(w).toldAndZones()
+			record[op.N] = fmt.Sprintf("err=%v\n%s", rep.err != nil, s)
+			if rep.kind == "reconfigure" && rep.err != nil {
+				record[-op.N] = "rejected"
+			}
+			continue
+		}
 		or.afterRequest(rep)
 		fp := or.fingerprint()
 		res.State(fp)
@@ -143,13 +176,93 @@ func (e engine) Execute(prop string, plan sim.Plan, seed uint64, res *sim.RunRes
 			break
 		}
 	}
-	if !w.dead && len(res.Violations) == 0 {
-		or.atEnd()
+	return changes
+}
+
+// c13Twin: rejection atomicity. The same plan is executed twice more in fresh
+// worlds, once as is and once without the configuration updates that were
+// rejected; every other request must see identical assignments, advertised
+// capacities and outcomes (map-order streams are keyed per request, so all
+// other choices coincide).
+func (e engine) c13Twin(w0 *world, p *Plan, seed uint64, res *sim.RunResult) {
+	run := func(skip map[int]bool, tag string) (map[int]string, bool) {
+		root := w0.root + "/" + tag
+		if err := p.Machine.Render(filepath.Join(root, "host")); err != nil {
+			return nil, false
+		}
+		vw := verifrt.NewWorld(seed, verifrt.OrderMode(p.Order))
+		vw.NewFS(filepath.Join(root, "state"))
+		w := &world{plan: p, prop: "C13", seed: seed, res: sim.NewResult(seed, 0), vw: vw, root: root, rt: newRuntime(), everActive: map[string]bool{}}
+		w.setMemCapacity()
+		vw.SetRequest("boot")
+		if err := w.bootRecover(p.Cfg); err != nil {
+			return nil, false
+		}
+		rec := map[int]string{}
+		w.runOps(nil, skip, rec)
+		return rec, !w.dead
 	}
-	res.Nontrivial = changes >= 2
-	res.SimSeconds = vw.SimulatedSeconds()
-	res.Digest = fmt.Sprintf("%016x", vw.LogDigest())
-	res.Extra["map-iterations"] += int(vw.IterCalls)
+	with, ok := run(nil, "with")
+	if !ok {
+		return
+	}
+	skip := map[int]bool{}
+	for n, v := range with {
+		if n < 0 && v == "rejected" {
+			skip[-n] = true
+		}
+	}
+	if len(skip) == 0 {
+		return
+	}
+	res.Probe("rejected-update-differential-run")
+	without, ok := run(skip, "without")
+	if !ok {
+		return
+	}
+	ns := make([]int, 0, len(without))
+	for n := range without {
+		if n > 0 {
+			ns = append(ns, n)
+		}
+	}
+	sort.Ints(ns)
+	for _, n := range ns {
+		res.Check("rejected-update-never-happened")
+		if a, b := with[n], without[n]; a != b {
+			var kind string
+			inv := ""
+			_ = inv
+			for _, op := range p.Ops {
+				if op.N == n {
+					kind = op.Kind
+				}
+			}
+			first := 0
+			for k := range skip {
+				if first == 0 || k < first {
+					first = k
+				}
+			}
+			for _, op := range p.Ops {
+				if op.N == first && op.Cfg != nil {
+					inv = op.Cfg.Invalid
+				}
+			}
+			res.Violate("C13", "rejected-update-never-happened", "C13 rejected-update-never-happened "+p.Policy, n,
+				"the history with the rejected configuration update(s) %v and the same history without them diverge at op %d (%s):\n%s", keysOf(skip), n, kind, firstDiffLines(b, a))
+			return
+		}
+	}
+}
+
+func keysOf(m map[int]bool) []int {
+	k := make([]int, 0, len(m))
+	for x := range m {
+		k = append(k, x)
+	}
+	sort.Ints(k)
+	return k
 }
 
 // planSummary is what evidence samples show: the op list without the machine.
